@@ -279,3 +279,11 @@ func CanonFree(fn *ssa.Function, name string) string {
 	}
 	return name
 }
+
+// KnownFunction: fn existed, under this name, on the tree the rule tables were
+// written against.
+func KnownFunction(fn *ssa.Function) bool {
+	frozenOnce.Do(loadFrozen)
+	_, ok := frozen[FuncString(fn)]
+	return ok
+}
